@@ -193,7 +193,9 @@ def instantiate_class_and_update_cache(symbolic_cls: Type, original_new: Callabl
             Variable._cache_[symbolic_cls].keys = kwargs.keys()
     else:
         kwargs = {}
-    Variable._cache_[symbolic_cls].insert(kwargs, HashedValue(instance), index=index)
+    # the identifier is given: looking for one on the instance (hasattr) would run the user's __getattr__ on an object
+    # whose __init__ has not run yet.
+    Variable._cache_[symbolic_cls].insert(kwargs, HashedValue(instance, id(instance)), index=index)
     return instance
 
 
